@@ -401,7 +401,7 @@ fn run_check(id: &str, args: &Args) -> i32 {
         "C12" => {
             // close() is written separately for the two flavours: the async corpus is part of this
             // check (quick: every 4th program at preemption bound <= 1; thorough: all of them)
-            let a = spec_outcome(checks::c12(&args.tier, model::Flavor::Sync), args, t0, args.secs * 5 / 6);
+            let a = spec_outcome(checks::c12(&args.tier, model::Flavor::Sync), args, t0, args.secs * 9 / 10);
             let mut spec = checks::c12(&args.tier, model::Flavor::Async);
             let quick = args.tier == "quick";
             if quick {
@@ -411,7 +411,7 @@ fn run_check(id: &str, args: &Args) -> i32 {
                 }
             }
             spec.rule = format!("[async flavour{}] {}", if quick { ": every 4th program, bounds <= 1" } else { "" }, spec.rule);
-            let mut b = spec_outcome(spec, args, t0, args.secs / 6);
+            let mut b = spec_outcome(spec, args, t0, args.secs / 10);
             b.property = "C12-async".into();
             finish(merge("C12", vec![a, b], t0))
         }
